@@ -601,6 +601,9 @@ Proof.
     rewrite P, NUM. reflexivity.
 Qed.
 
+Lemma nonnil_match {A} (l : list A) : l <> [] -> (match l with [] => true | _ :: _ => false end) = false.
+Proof. destruct l; [contradiction|reflexivity]. Qed.
+
 Lemma munch_hex hs r : forallb hexdigit hs = true -> hs <> [] -> value_of 16 hs < LexSpec.two64 ->
   hdp idchar r = false -> munched T_IntVal (48 :: 120 :: hs) r.
 Proof.
@@ -612,7 +615,8 @@ Proof.
   change (120 =? 98) with false. change (120 =? 120) with true. cbv beta iota.
   change (16 =? 2) with false. change (16 =? 10) with false. cbv beta iota.
   rewrite (eat_while_munch is_ascii_hexdigit hs r).
-  - cbn [andb]. rewrite (interpret_ok_spec 16 0 hs Lexer.two64); [reflexivity|lia|exact D|exact NE|reflexivity|exact V].
+  - cbn [andb]. rewrite (nonnil_match hs NE), andb_false_r.
+    rewrite (interpret_ok_spec 16 0 hs Lexer.two64); [reflexivity|lia|exact D|exact NE|reflexivity|exact V].
   - rewrite (forallb_ext _ hexdigit); [exact D|apply cls_hexdigit].
   - rewrite (hdp_ext _ hexdigit); [exact (hdp_weaken _ _ r hexdigit_idchar R)|apply cls_hexdigit].
 Qed.
@@ -628,7 +632,8 @@ Proof.
   change (98 =? 98) with true. cbv beta iota.
   change (2 =? 2) with true. change (2 =? 10) with false. cbv beta iota.
   rewrite (eat_while_munch is_bin_digit bs r).
-  - cbn [andb]. rewrite (interpret_ok_spec 2 0 bs Lexer.two64); [reflexivity|lia|apply bin_hex; exact D|exact NE|reflexivity|exact V].
+  - cbn [andb]. rewrite (nonnil_match bs NE), andb_false_r.
+    rewrite (interpret_ok_spec 2 0 bs Lexer.two64); [reflexivity|lia|apply bin_hex; exact D|exact NE|reflexivity|exact V].
   - exact D.
   - exact (hdp_weaken _ _ r bindigit_idchar R).
 Qed.
@@ -747,17 +752,64 @@ Proof.
   - rewrite (hdp_ext _ idchar); [exact R|apply cls_idchar].
 Qed.
 
-Lemma munch_ident w r : is_ident w = true -> radix_word w = false -> hdp idchar r = false -> munched T_Id w r.
+Lemma eat_while_none (p : N -> bool) s : hdp p s = false -> eat_while p s = ([], s).
+Proof. destruct s as [|c s']; [reflexivity|]. cbn [hdp eat_while]. intros ->. reflexivity. Qed.
+
+(** identifiers that begin with 0x / 0b but not with a complete literal (repair 35af9d5): m = 'x' or 'b' *)
+Lemma munch_ident_radix m cs r :
+  ((m =? 120) || (m =? 98)) = true -> forallb idchar cs = true ->
+  radix_literal_prefix (48 :: m :: cs) = false ->
+  word_in keywords (48 :: m :: cs) = false ->
+  hdp idchar r = false -> munched T_Id (48 :: m :: cs) r.
 Proof.
-  unfold is_ident, ident_shape. intros H RW R.
-  apply andb_true_iff in H. destruct H as [H _]. apply andb_true_iff in H. destruct H as [H KW].
-  apply andb_true_iff in H. destruct H as [A E]. apply negb_true_iff in KW.
-  destruct (ident_split w A E) as (ds & a & cs & W & D & UA & CS).
-  destruct ds as [|c ds'].
-  - cbn [app] in W. subst w. unfold munched. rewrite (lex_word a cs r UA CS R).
-    rewrite (keyword_lookup_none _ KW). reflexivity.
-  - cbn [app] in W. subst w. cbn [forallb] in D. apply andb_true_iff in D. destruct D as [C D].
-    apply munch_ident_digit; assumption.
+  intros Hm CS RL KW R. unfold munched. cbn [app]. rewrite lex_one_eq.
+  replace (is_whitespace 48) with false by (vm_compute; reflexivity).
+  change (48 =? 47) with false. change (is_ascii_digit 48) with true. cbn [andb].
+  rewrite number_eq. cbv zeta. change (48 =? 43) with false. change (48 =? 45) with false.
+  rewrite !andb_false_r. unfold num_pfx. change (48 =? 48) with true. cbn [hd_eqb tl].
+  assert (IDC : eat_while is_identifier_continue (cs ++ r) = (cs, r)).
+  { apply eat_while_munch.
+    - rewrite (forallb_ext _ idchar); [exact CS|apply cls_idchar].
+    - rewrite (hdp_ext _ idchar); [exact R|apply cls_idchar]. }
+  apply orb_true_iff in Hm. destruct Hm as [Hm|Hm]; apply N.eqb_eq in Hm; subst m.
+  - (* 0x *) change (120 =? 98) with false. change (120 =? 120) with true. cbv beta iota.
+    change (16 =? 2) with false. change (16 =? 10) with false. cbv beta iota.
+    assert (NH : hdp is_ascii_hexdigit (cs ++ r) = false).
+    { rewrite (hdp_ext _ hexdigit) by apply cls_hexdigit. destruct cs as [|d cs'].
+      - exact (hdp_weaken _ _ r hexdigit_idchar R).
+      - cbn [app hdp]. cbn [radix_literal_prefix] in RL. change (48 =? 48) with true in RL.
+        change (120 =? 120) with true in RL. change (120 =? 98) with false in RL. cbn [andb orb] in RL.
+        rewrite orb_false_r in RL. exact RL. }
+    rewrite (eat_while_none _ _ NH). cbn [andb negb]. rewrite IDC.
+    change (48 :: [120] ++ cs) with (48 :: 120 :: cs). rewrite (keyword_lookup_none _ KW). reflexivity.
+  - (* 0b *) change (98 =? 98) with true. cbv beta iota.
+    change (2 =? 2) with true. change (2 =? 10) with false. cbv beta iota.
+    assert (NB : hdp is_bin_digit (cs ++ r) = false).
+    { destruct cs as [|d cs'].
+      - exact (hdp_weaken _ _ r bindigit_idchar R).
+      - cbn [app hdp]. cbn [radix_literal_prefix] in RL. change (48 =? 48) with true in RL.
+        change (98 =? 120) with false in RL. change (98 =? 98) with true in RL. cbn [andb orb] in RL.
+        exact RL. }
+    rewrite (eat_while_none _ _ NB). cbn [andb negb]. rewrite IDC.
+    change (48 :: [98] ++ cs) with (48 :: 98 :: cs). rewrite (keyword_lookup_none _ KW). reflexivity.
+Qed.
+
+Lemma munch_ident w r : is_ident w = true -> hdp idchar r = false -> munched T_Id w r.
+Proof.
+  unfold is_ident, ident_shape. intros H R.
+  apply andb_true_iff in H. destruct H as [H RL]. apply andb_true_iff in H. destruct H as [H KW].
+  apply andb_true_iff in H. destruct H as [A E]. apply negb_true_iff in KW, RL.
+  destruct (radix_word w) eqn:RW.
+  - unfold radix_word in RW. destruct w as [|z [|m cs]]; try discriminate.
+    apply andb_true_iff in RW. destruct RW as [Z Hm]. apply N.eqb_eq in Z. subst z.
+    cbn [forallb] in A. apply andb_true_iff in A. destruct A as [_ A]. apply andb_true_iff in A. destruct A as [_ A].
+    apply munch_ident_radix; assumption.
+  - destruct (ident_split w A E) as (ds & a & cs & W & D & UA & CS).
+    destruct ds as [|c ds'].
+    + cbn [app] in W. subst w. unfold munched. rewrite (lex_word a cs r UA CS R).
+      rewrite (keyword_lookup_none _ KW). reflexivity.
+    + cbn [app] in W. subst w. cbn [forallb] in D. apply andb_true_iff in D. destruct D as [C D].
+      apply munch_ident_digit; assumption.
 Qed.
 
 (** * Punctuation *)
@@ -883,17 +935,16 @@ Proof.
   unfold follow_ok. rewrite NW, NB, KI. reflexivity.
 Qed.
 
-(** The munch lemma for every class.  [radix_word]: the known class D26. *)
+(** The munch lemma for every class. *)
 Lemma munch k w r :
   (spec_tok k w || spec_sep k w || spec_directive k w) = true ->
-  (tk_eqb k T_Id && radix_word w) = false ->
   follow_ok k r = true -> munched k w r.
 Proof.
-  intros V KN F. apply orb_true_iff in V. destruct V as [V|V]; [apply orb_true_iff in V; destruct V as [V|V]|].
+  intros V F. apply orb_true_iff in V. destruct V as [V|V]; [apply orb_true_iff in V; destruct V as [V|V]|].
   - apply spec_tok_cases in V.
     destruct V as [[-> V]|[[-> V]|[[-> V]|[[-> V]|[[-> V]|[[-> V]|[V|[V|V]]]]]]]].
     + change (follow_ok T_Id r) with (negb (hdp idchar r)) in F. apply negb_true_iff in F.
-      cbn [andb] in KN. change (tk_eqb T_Id T_Id) with true in KN. apply munch_ident; assumption.
+      apply munch_ident; assumption.
     + change (follow_ok T_IntVal r) with (negb (hdp idchar r)) in F. apply negb_true_iff in F.
       apply munch_int; assumption.
     + change (follow_ok T_BinaryIntVal r) with (negb (hdp idchar r)) in F. apply negb_true_iff in F.
@@ -923,36 +974,26 @@ Lemma valid_nonempty k : (spec_tok k [] || spec_sep k [] || spec_directive k [])
 Proof. destruct k; vm_compute; reflexivity. Qed.
 
 Lemma conforms_lexes ps :
-  forallb valid_piece_d ps = true -> outside_known ps = true -> not_merged ps = true ->
+  forallb valid_piece_d ps = true -> not_merged ps = true ->
   lexes (render ps) (expected_tokens ps).
 Proof.
-  unfold outside_known. induction ps as [|p ps IH]; intros V K M.
+  induction ps as [|p ps IH]; intros V M.
   - constructor.
   - cbn [forallb] in V. apply andb_true_iff in V. destruct V as [Vp V].
-    cbn [existsb] in K. rewrite negb_orb in K. apply andb_true_iff in K. destruct K as [Kp K].
     cbn [not_merged] in M. apply andb_true_iff in M. destruct M as [Fp M].
     destruct p as [k w]. cbn [pk pw] in *.
     unfold valid_piece_d, valid_piece in Vp. cbn [pk pw] in Vp.
-    unfold known_d26 in Kp. cbn [pk pw] in Kp. apply negb_true_iff in Kp.
-    pose proof (munch k w (render ps) Vp Kp Fp) as MU. unfold munched in MU.
+    pose proof (munch k w (render ps) Vp Fp) as MU. unfold munched in MU.
     change (render ({| pk := k; pw := w |} :: ps)) with (w ++ render ps).
     change (expected_tokens ({| pk := k; pw := w |} :: ps)) with ((k, @None lex_err, w) :: expected_tokens ps).
-    eapply lexes_cons; [|exact MU|exact (IH V K M)].
+    eapply lexes_cons; [|exact MU|exact (IH V M)].
     destruct w as [|c w']; [|discriminate]. rewrite valid_nonempty in Vp. discriminate.
 Qed.
 
 Lemma conforms ps :
-  forallb valid_piece_d ps = true -> outside_known ps = true -> not_merged ps = true ->
+  forallb valid_piece_d ps = true -> not_merged ps = true ->
   lex_text (render ps) = expected_tokens ps.
-Proof. intros V K M. apply lexes_lex_text. apply conforms_lexes; assumption. Qed.
-
-(** * The known class: the statement fails on it (witness: the identifier 0b alone) *)
-
-Definition d26_witness : list piece := [ mkpiece T_Id [48; 98] ].
-
-Lemma conforms_refuted :
-  exists ps, forallb valid_piece ps = true /\ not_merged ps = true /\ lex_text (render ps) <> expected_tokens ps.
-Proof. exists d26_witness. split; [vm_compute; reflexivity|]. split; [vm_compute; reflexivity|]. vm_compute. discriminate. Qed.
+Proof. intros V M. apply lexes_lex_text. apply conforms_lexes; assumption. Qed.
 
 Lemma valid_piece_d_of ps : forallb valid_piece ps = true -> forallb valid_piece_d ps = true.
 Proof.
@@ -960,9 +1001,9 @@ Proof.
 Qed.
 
 Lemma conforms_tokens ps :
-  forallb valid_piece ps = true -> outside_known ps = true -> not_merged ps = true ->
+  forallb valid_piece ps = true -> not_merged ps = true ->
   lex_text (render ps) = expected_tokens ps.
-Proof. intros V K M. apply conforms; [apply valid_piece_d_of; exact V|exact K|exact M]. Qed.
+Proof. intros V M. apply conforms; [apply valid_piece_d_of; exact V|exact M]. Qed.
 
 (** * Tokens separated by well-formed gaps are never merged *)
 
@@ -1119,3 +1160,24 @@ Qed.
 Lemma nested_comment_in_spec es : cev_closed O es = true -> cev_clean es = true ->
   spec_sep T_BlockComment (47 :: 42 :: render_cevs es) = true.
 Proof. intros C K. cbn [spec_sep is_block_comment]. rewrite !N.eqb_refl. cbn [andb]. apply nested_comment_ok; assumption. Qed.
+
+(** * The side condition makes the decomposition unique *)
+
+Lemma expected_tokens_inj (ps qs : list piece) :
+  @expected_tokens lex_err ps = expected_tokens qs -> ps = qs.
+Proof.
+  unfold expected_tokens. revert qs. induction ps as [|[k w] ps IH]; intros [|[k' w'] qs] H; cbn [map app pk pw] in H.
+  - reflexivity.
+  - inversion H; subst. destruct qs; discriminate.
+  - inversion H; subst. destruct ps; discriminate.
+  - inversion H; subst. f_equal. apply IH. assumption.
+Qed.
+
+Lemma unambiguous ps qs :
+  forallb valid_piece_d ps = true -> not_merged ps = true ->
+  forallb valid_piece_d qs = true -> not_merged qs = true ->
+  render ps = render qs -> ps = qs.
+Proof.
+  intros V1 M1 V2 M2 R. apply expected_tokens_inj.
+  rewrite <- (conforms ps V1 M1), <- (conforms qs V2 M2), R. reflexivity.
+Qed.
